@@ -1101,6 +1101,28 @@ func runC20(c *Ctx) {
 			mk("single", hot)
 		}
 	}
+	// names that only differ in where a delimiter-looking substring sits: ("a`.`b","c") vs ("a","b`.`c"), ("a.b","c") vs
+	// ("a","b.c") ... in one transaction and in consecutive ones (a serialiser that keys anything by a joined name
+	// confuses them; the cases of one process run share whatever state the serialiser keeps)
+	for i := 0; i < c.N(40, 600); i++ {
+		parts := []string{pickS(r, "a", "shop", "x`y", ""), pickS(r, "b", "orders", "``"), pickS(r, "c", "items", "z")}
+		j := pickS(r, "`.`", ".", "`", "\".\"", ",", "\x00", "/")
+		n1 := gobinlog.MysqlTableName{DbName: parts[0] + j + parts[1], TableName: parts[2]}
+		n2 := gobinlog.MysqlTableName{DbName: parts[0], TableName: parts[1] + j + parts[2]}
+		mkEv := func(n gobinlog.MysqlTableName) *gobinlog.StreamEvent {
+			g := &txGen{r: r, mode: "realistic", esc: c.R.Dist, flags: map[string]bool{}}
+			e := g.event()
+			e.Table = n
+			return e
+		}
+		pos := gobinlog.Position{Filename: "bin.000001", Offset: int64(4 + i)}
+		if i%2 == 0 {
+			cases = append(cases, txCase{&gobinlog.Transaction{NowPosition: pos, NextPosition: pos, Events: []*gobinlog.StreamEvent{mkEv(n1), mkEv(n2), mkEv(n1)}}, "tx/colliding-names/one-tx"})
+		} else {
+			cases = append(cases, txCase{&gobinlog.Transaction{NowPosition: pos, NextPosition: pos, Events: []*gobinlog.StreamEvent{mkEv(n1)}}, "tx/colliding-names/first"},
+				txCase{&gobinlog.Transaction{NowPosition: pos, NextPosition: pos, Events: []*gobinlog.StreamEvent{mkEv(n2)}}, "tx/colliding-names/second"})
+		}
+	}
 	cases = append(cases, txCase{allTypesTx(r, -3, 30), "tx/alltypes/low"}, txCase{allTypesTx(r, 240, 260), "tx/alltypes/high"},
 		txCase{&gobinlog.Transaction{}, "tx/zero-value"})
 	// the repo's own test vector shape
